@@ -94,7 +94,7 @@ func (n *Node) src(sb *strings.Builder) {
 		}
 		sb.WriteString("})")
 		if n.Derive != 0 {
-			fmt.Fprintf(sb, "/*then replaced by %s*/", []string{"", "s.Pick(all keys...)", "s.Omit()", "s.Extend(z.Schema{})", "s.Pick(map of all keys)"}[n.Derive])
+			fmt.Fprintf(sb, "/*then replaced by %s*/", []string{"", "s.Pick(all keys...)", "s.Omit()", "s.Extend(z.Schema{})", "s.Pick(map of all keys)", "base.Extend({first primitive field: the real field}) where base held a stand-in there and was used once"}[n.Derive])
 		}
 		if n.ViaMerge {
 			fmt.Fprintf(sb, "/*assembled as part1.Merge(part2, part3) two=%v, cuts(fields,tests,posts)=%v; afterwards part1.Merge(inert) is built and dropped*/", n.MergeTwo, n.MergeCuts)
